@@ -7,6 +7,7 @@ import AfkakProofs.Producer.StopTrace
 import AfkakProofs.Producer.Dispatch
 import AfkakProofs.Producer.Wait
 import AfkakProofs.Producer.ReentrantExt
+import AfkakProofs.Producer.ReentrantTail
 /-!
 # C19 — Batching thresholds, time limit and cancellation behave as documented
 Property theorems only.  Model: `Afkak/Producer.lean`; monitors: `Afkak/Monitor/C19.lean`.
@@ -184,6 +185,32 @@ theorem C19_reentrant_conservative_step (cfg : Cfg) (act : Afkak.ProducerR.Act) 
       (Afkak.ProducerR.ofCore (step cfg c e).1, Afkak.ProducerR.lift (step cfg c e).2) :=
   Afkak.ProducerR.stepCore_flat cfg act c e
 
+/-- Transfer of the flat theorems to hooked runs, as far as it goes: a hook that fires in TAIL position runs
+    when the Producer's own code has finished, so the hooked step IS a flat run on the rewritten event list
+    "the step, then the hook's calls" (`flatten`: the ids of sends made by the hook are the next free ones) -
+    same final state, same observations up to the hook markers - and every theorem about `run` applies to it.
+    Case 1: the caller cancels a hooked send (the only hook). -/
+theorem C19_reentrant_tail_cancel (cfg : Cfg) (n : Nat) (c : St) (sid : Sid) (h : Afkak.ProducerR.Hook)
+    (hlt : sid < c.nextSid) (ho : sid ∈ c.outstanding) :
+    (Afkak.ProducerR.stepR cfg (n + 1) { core := c, hooks := [(sid, h)], running := false } (.flat (.cancel sid))).1 =
+      Afkak.ProducerR.ofCore (run cfg c (Ev.cancel sid :: Afkak.ProducerR.flatten cfg (cancelSend c sid).1 h)).1 ∧
+    Afkak.ProducerR.flatObs
+        (Afkak.ProducerR.stepR cfg (n + 1) { core := c, hooks := [(sid, h)], running := false } (.flat (.cancel sid))).2 =
+      (run cfg c (Ev.cancel sid :: Afkak.ProducerR.flatten cfg (cancelSend c sid).1 h)).2 :=
+  Afkak.ProducerR.cancel_hooked cfg n c sid h hlt ho
+
+/-- Case 2: a hooked send that `send_messages` refuses (no messages): its callback runs as it is attached.
+    (A hook that fires in the MIDDLE of a firing loop has no flat equivalent - F27/F28 live there; such runs
+    are compared with `ProducerR` only.) -/
+theorem C19_reentrant_tail_refused (cfg : Cfg) (n : Nat) (c : St) (topic : Topic) (key : Option (List UInt8))
+    (h : Afkak.ProducerR.Hook) (hno : c.nextSid ∉ c.outstanding) :
+    (Afkak.ProducerR.stepR cfg (n + 1) (Afkak.ProducerR.ofCore c) (.sendH c.nextSid topic key [] h)).1 =
+      Afkak.ProducerR.ofCore (run cfg c (Ev.send c.nextSid topic key [] ::
+        Afkak.ProducerR.flatten cfg { c with nextSid := c.nextSid + 1 } h)).1 ∧
+    Afkak.ProducerR.flatObs (Afkak.ProducerR.stepR cfg (n + 1) (Afkak.ProducerR.ofCore c) (.sendH c.nextSid topic key [] h)).2 =
+      (run cfg c (Ev.send c.nextSid topic key [] :: Afkak.ProducerR.flatten cfg { c with nextSid := c.nextSid + 1 } h)).2 :=
+  Afkak.ProducerR.sendH_refused cfg n c topic key h hno
+
 /-- Finding F27 (fixed 2a89c0b), in the re-entrant machine: whatever the callbacks of the sends that fail in
     `_send_requests`' loop do (`act` arbitrary - e.g. call `stop()`), `_send_requests` lets a produce request
     go out only if the Producer is not stopping at that moment. -/
@@ -223,6 +250,8 @@ C19_wait_bound_clock
 C19_reentrant_conservative
 C19_reentrant_conservative_step
 C19_reentrant_no_request_once_stopping
+C19_reentrant_tail_cancel
+C19_reentrant_tail_refused
 -/
 /- OPEN_STATEMENTS
 -/
